@@ -518,6 +518,34 @@ class SArr(real_np.ndarray):
             root_info(r, ld=self.dtype)
         return r
 
+    def _iop(self, o, f):
+        if isinstance(o, (Sym, Cplx)):
+            self[...] = f(self, o)
+            return self
+        return NotImplemented
+
+    def __iadd__(self, o):
+        r = self._iop(o, lambda a, b: a + b)
+        return r if r is not NotImplemented else real_np.ndarray.__iadd__(self, o)
+
+    def __isub__(self, o):
+        r = self._iop(o, lambda a, b: a - b)
+        return r if r is not NotImplemented else real_np.ndarray.__isub__(self, o)
+
+    def __imul__(self, o):
+        r = self._iop(o, lambda a, b: a * b)
+        return r if r is not NotImplemented else real_np.ndarray.__imul__(self, o)
+
+    def __itruediv__(self, o):
+        r = self._iop(o, lambda a, b: a / b)
+        return r if r is not NotImplemented else real_np.ndarray.__itruediv__(self, o)
+
+    def __iter__(self):
+        if self.ndim == 0:
+            raise TypeError('iteration over a 0-d array')
+        for i in range(self.shape[0]):
+            yield self[i]
+
     def tolist(self):
         return real_np.ndarray.tolist(real_np.ndarray.view(self, real_np.ndarray))
 
